@@ -163,6 +163,21 @@ CLAIMS = {
               "exhaustive finite-domain evaluation of the field predicates by the checker's own AST evaluator, "
               "return-kind provenance of encoders, unused-result lint",
     ref="DESIGN.md 3/C13"),
+ "C14": dict(
+    text="Static agreement of the encoder table with the converter table (not equality after the round trip): every "
+         "non-JSON-native family of the domain has a registered encoder and a registered converter and JSONEncoder.default "
+         "applies the resolved encoder (R14a); every encoder returns a JSON-native kind by provenance and applies no "
+         "operation that needs an element order (R14b); the gate and the format choice in front of the UTC-offset (%z) "
+         "parse accept '-' wherever they accept '+' (R14c); the sign of a textual duration multiplies the value built "
+         "from all matched components and the encoder negates the whole value (R14d); after the UTC marker is stripped "
+         "every return that parses the stripped text re-attaches UTC under the flag (R14e); byte codecs agree and "
+         "decimals are rebuilt from text, never from the float (R14f).",
+    note="Undecided (the core): equality of the re-parsed instance for every value of the domain; inclusion of the "
+         "isoformat()/duration_iso_string languages in what strptime formats / DURATION_REGS accept. Observed, not "
+         "derivable: Set[Tuple[...]] does not parse back (set(...) of raw lists before element conversion).",
+    technique="registration-table coverage, return-kind provenance, one-sided-comparison (sign symmetry) lint on gates "
+              "dominating the %z parse, provenance of the signed operand, flag-obligation (computed-then-ignored) check",
+    ref="DESIGN.md 3/C14"),
  "C15": dict(
     text="Static tables-and-shapes check of the JSON-Schema translator (not the value-level strictness): every validation "
          "keyword of the supported fragment is translated and CONSTRAINTS_MAP maps it to a constraint that implies its "
